@@ -27,6 +27,14 @@ class ExprArrayProductModel(ExprDynamicModel):
     def build(self, btor, ctx_width=-1):
         return self.arr.build_product_expr(btor, ctx_width);
     
+    def val(self):
+        from vsc.model.value_scalar import ValueScalar
+        sz = int(self.arr.size.get_val())
+        ret = 0 if sz == 0 else 1
+        for i in range(sz):
+            ret *= int(self.arr.field_l[i].get_val())
+        return ValueScalar(ret)
+    
     def accept(self, v):
         v.visit_expr_array_product(self)
     
